@@ -271,7 +271,7 @@ func runHarness(prog *ssa.Program, pkg *ssa.Package, fn *ssa.Function, solver, t
 	e := &Engine{c: ctx, sol: sol, prog: prog, finfo: map[*ssa.Function]*fnInfo{}, globals: map[*ssa.Global]int{},
 		inited: map[*ssa.Package]bool{}, vioSites: map[string]bool{}, reached: res.Reached, maxSteps: maxSteps,
 		deadline: t0.Add(time.Duration(timeout) * time.Second), verbose: verbose, funcsSeen: map[string]bool{},
-		harness: fn.Name(), tier: tier, symIdx: optSymIdx, symLen: optSymLen, noModel: optNoModel, shard: shard, ifShapes: map[*ssa.If]*ifShape{}, noIfConv: optNoIfConv}
+		harness: fn.Name(), tier: tier, symIdx: optSymIdx, symLen: optSymLen, noModel: optNoModel, shard: shard, ifShapes: map[*ssa.If]*ifShape{}, uniq: map[string]int{}, noIfConv: optNoIfConv}
 	if os.Getenv("GOSMT_DEBUG") != "" {
 		e.dbgLabels = dbgLabelsG
 	}
